@@ -243,6 +243,7 @@ const COST_GRMS: &[&str] = &[
     "%start S\n%%\nS: 'a' S 'b' | 'c';",
     "%start S\n%%\nS: A B;\nA: 'a' | ;\nB: 'b' B | 'c';",
     "%start S\n%%\nS: A A A;\nA: 'a' 'b' | 'c';",
+    "%start S\n%%\nS: A; A: B 'x' 'x' | C; B: ; C: D; D: 'y';",
 ];
 pub fn search_costs(tier: &str) -> Option<Value> {
     let cost_sets: [&[u8]; 4] = [&[1], &[1, 2, 3], &[0, 1], &[255, 1]];
